@@ -48,11 +48,31 @@ class RemoveEnclosingMiddleware(BlockMiddleware):
     @staticmethod
     def _strip_enclosing(value: str) -> Tuple[str, Union[str, None]]:
         value = value.strip()
-        if value.startswith("{") and value.endswith("}"):
-            return value[1:-1], "{"
-        if value.startswith('"') and value.endswith('"'):
-            return value[1:-1], '"'
+        if len(value) >= 2 and RemoveEnclosingMiddleware._is_single_enclosed_piece(value):
+            return value[1:-1], value[0]
         return value, "no-enclosing"
+
+    @staticmethod
+    def _is_single_enclosed_piece(value: str) -> bool:
+        """True iff the first and the last character are one matching `{...}` or `"..."` pair."""
+        if not (value[0] == "{" and value[-1] == "}") and not (value[0] == value[-1] == '"'):
+            return False
+        last = len(value) - 1
+        depth = 0
+        for i, char in enumerate(value):
+            if i > 0 and value[i - 1] == "\\":
+                if i == last:
+                    return False  # the closing delimiter is escaped
+                continue  # escaped delimiter
+            if char == "{":
+                depth += 1
+            elif char == "}":
+                depth -= 1
+                if depth == 0 and value[0] == "{":
+                    return i == last  # the opening bracket is closed here
+            elif char == '"' and depth == 0 and value[0] == '"' and 0 < i < last:
+                return False  # the opening quote is closed before the end
+        return value[0] == '"'
 
     # docstr-coverage: inherited
     def transform_entry(self, entry: Entry, library: Library) -> Entry:
